@@ -125,8 +125,13 @@ def finish(res: Result, tier: str, seed: int, t0: float, selftest: Optional[dict
         tgt = decided_in if i.verdict in (OK, VIOLATION) else undecided_in
         tgt[(i.rule, i.function)] = tgt.get((i.rule, i.function), 0) + 1
     lost = []
+    # a function whose reviewed decision was a LISTED known finding that no longer fires (the defect was repaired) may legitimately
+    # fall back to undecided: noted below, not an analysis error
+    repaired = {tuple(k.split("|")[:2]) for k in known_keys if k not in {i.key for i in known_hit}}
     for rule, fns in sites.items():
         for fn in fns:
+            if (rule, fn) in repaired:
+                continue
             if tree_functions is not None and fn not in tree_functions and not any(f == fn or f.startswith(fn + ".") for f in tree_functions):
                 continue        # the function itself is gone: reported by the rules that are anchored in it
             if decided_in.get((rule, fn), 0) == 0:
